@@ -184,3 +184,59 @@ Proof.
   - intros H. split; [exact (swo_asym A lt H)|exact (swo_le_trans A lt H)].
   - intros [H1 H2]. apply swo_of_total_preorder; auto.
 Qed.
+
+(* ---- heapz.Heap (element handles) ---- *)
+From V Require Import Proofs.HeapHandles Proofs.HeapHJudge.
+Section HandleStatements.
+Variable A : Type.
+Variable d : A.
+Variable lt : A -> A -> bool.
+Variable eqb : A -> A -> bool.
+Hypothesis swo : strict_weak_order A lt.
+Hypothesis eqb_spec : forall a b, eqb a b = true <-> a = b.
+Let lt_asym := swo_asym A lt swo.
+Let le_trans := swo_le_trans A lt swo.
+
+(* every operation sequence on two fresh heaps (handles of either heap, stale handles, unknown handles, re-pushed
+   elements, Init on a used heap, PopAll cut short): no panic, no fuel exhaustion, accepted by the judge *)
+Lemma t_hcase_judged : forall ops, forallb (hop_wf A) ops = true ->
+  (exists tr, hcase A d lt ops = Ok tr) /\ jh_case A d lt eqb ops (hcase A d lt ops) = true.
+Proof. exact (hcase_judged A d lt eqb eqb_spec le_trans lt_asym). Qed.
+
+(* the invariant behind it, operation by operation: from any world in which every element of either heap caches
+   its position and owner, every other element reports index -1 / owner nil, and both arrays are in heap order *)
+Lemma t_hstep_invariant : forall w j o, WInv A d lt w -> J A w j -> hop_wf A o = true ->
+  exists w' r j', hstep A d lt w o = Ok (w', r) /\ jh_step A d lt eqb j o r (map (eidx A) (wst A w')) = HGo A j' /\
+                  WInv A d lt w' /\ J A w' j'.
+Proof. exact (hstep_good A d lt eqb eqb_spec le_trans lt_asym). Qed.
+
+(* Remove(e) on the heap that holds e: exactly e leaves, it then reports -1, everything else keeps its handle *)
+Lemma t_remove_handle : forall h mine other st e,
+  HS A d h mine other st -> Ord A d lt mine other st -> h = 0%Z \/ h = 1%Z -> In e mine ->
+  exists mine' st', hp_remove A d lt h (mine, st) e = Ok (mine', st') /\
+    HS A d h mine' other st' /\ Ord A d lt mine' other st' /\ Permutation (e :: mine') mine /\
+    length st' = length st /\ (forall x, valof A d st' x = valof A d st x) /\ eidx A (getE A d st' e) = (-1)%Z.
+Proof. exact (hp_remove_spec A d lt le_trans lt_asym). Qed.
+(* stale handles, handles of the other heap, unknown handles: ignored *)
+Lemma t_foreign_ignored : forall h mine other st e, HS A d h mine other st -> h = 0%Z \/ h = 1%Z -> ~ In e mine ->
+  hp_remove A d lt h (mine, st) e = Ok (mine, st) /\ hp_fix A d lt h (mine, st) e = Ok (mine, st).
+Proof. intros. split; [apply (hp_remove_ignored A d lt h mine other); auto|apply (hp_fix_ignored A d lt h mine other); auto]. Qed.
+(* Fix(e) after e.Value changed *)
+Lemma t_fix_handle : forall h mine other st e (val0 : nat -> A),
+  HS A d h mine other st -> h = 0%Z \/ h = 1%Z -> In e mine ->
+  (forall x, x <> e -> valof A d st x = val0 x) -> heap_ok nat 0 (ltE A lt val0) mine (length mine) ->
+  heap_ok nat 0 (ltE A lt (valof A d st)) other (length other) ->
+  exists mine' st', hp_fix A d lt h (mine, st) e = Ok (mine', st') /\
+    HS A d h mine' other st' /\ Ord A d lt mine' other st' /\ Permutation mine' mine /\
+    length st' = length st /\ (forall x, valof A d st' x = valof A d st x).
+Proof. exact (hp_fix_spec A d lt le_trans lt_asym). Qed.
+Lemma t_pop_handle : forall h mine other st, HS A d h mine other st -> Ord A d lt mine other st -> 1 <= length mine ->
+  exists mine' st', hp_pop A d lt (mine, st) = Ok ((mine', st'), Z.of_nat (nth 0 mine 0)) /\
+    HS A d h mine' other st' /\ Ord A d lt mine' other st' /\ Permutation (nth 0 mine 0 :: mine') mine /\
+    (forall y, In y mine -> lt (valof A d st y) (valof A d st (nth 0 mine 0)) = false) /\
+    length st' = length st /\ (forall x, valof A d st' x = valof A d st x) /\ eidx A (getE A d st' (nth 0 mine 0)) = (-1)%Z.
+Proof. exact (hp_pop_spec A d lt le_trans lt_asym). Qed.
+(* the reported indices of a world that satisfies the invariant pass the judge's view check *)
+Lemma t_view_ok : forall w j, WInv A d lt w -> J A w j -> view_ok A d lt j (map (eidx A) (wst A w)) = true.
+Proof. exact (view_ok_of A d lt). Qed.
+End HandleStatements.
